@@ -2090,7 +2090,8 @@ fn round_dlrace(seed: u64, hb: &Heartbeat, tot: &Mutex<Tot>, prop: &str) {
                     // A's in-actor ask to B ends by its 1 ms timeout (B's handler is parked); A's handler returns
                     let gate = Arc::new(tokio::sync::Semaphore::new(0));
                     let entered = Arc::new(tokio::sync::Semaphore::new(0));
-                    if p == 0 && pr.chance(50) {
+                    let eager = p == 0 && pr.chance(50);
+                    if eager {
                         // variant: A only creates the ask (future built in its hook, driven by a detached task) and returns
                         let leaked: &'static rsactor::ActorRef<N> = Box::leak(Box::new(b.clone()));
                         match a.ask(Eager(leaked, gate.clone(), entered.clone())).await {
@@ -2115,6 +2116,7 @@ fn round_dlrace(seed: u64, hb: &Heartbeat, tot: &Mutex<Tot>, prop: &str) {
                     gate.add_permits(1);
                     match b.ask(Ping).await {
                         Ok(_) => {}
+                        Err(e) if eager => return Err(format!("A's handler had only created an ask to B (driven by a detached task) and returned; B, released afterwards, asked the idle A from that request's handler and died: {e:?}")),
                         Err(e) => return Err(format!("A's in-actor ask_with_timeout to B had timed out and A was idle again; B, released afterwards, asked A from the stale request's handler and died: {e:?}")),
                     }
                 }
